@@ -619,6 +619,35 @@ def sched_oracle(run, corr, deep, n_quick=260, n_thorough=4000):
                                          "readable": describe(l.replace("R %d " % k, ""))})
             if found >= 3:
                 break
+    # line-level schedules: the racing operation before EVERY line event of the toolkit's own code on the tick's path
+    # (a preemption point between any two statements; not compared with the interleaving model, judged by the oracle only)
+    if found < 3:
+        nl = run.scale(30, 400) * (3 if deep else 1)
+        sub = scen[:nl]
+        probe = [info["head"] + " ; ".join(ops + ["L 99999 " + race]) for ops, race, info in sub]
+        pa = vf.run_lines([vf.PY, SCHED_HARNESS, vf.TRX], probe)
+        llines, lmeta = [], []
+        for (ops, race, info), a in zip(sub, pa):
+            if a.startswith(("cfgerr", "HARNESS")):
+                raise vf.HarnessError("schedule harness (line level): %s" % a[:300])
+            pts = _parse_race(a.split(" | ")[0].split(" ; ")[-1])[4]
+            for k in range(pts):
+                llines.append(info["head"] + " ; ".join(ops + ["L %d %s" % (k, race)]))
+                lmeta.append((info, k, pts))
+        la = vf.run_lines([vf.PY, SCHED_HARNESS, vf.TRX], llines)
+        for l, a, (info, k, pts) in zip(llines, la, lmeta):
+            if a.startswith(("cfgerr", "HARNESS")):
+                raise vf.HarnessError("schedule harness (line level): %s" % a[:300])
+            w = _sched_judge(info, a)
+            if w is not None:
+                at = [x for x in a.split(" | ")[0].split(" ; ")[-1].split(",") if x.startswith("at:")]
+                found += run.report_witness({"kind": "schedule", "property": "C03", "what": w, "boundary": k, "of": pts,
+                                             "line_level": True, "parked_before": at[0][3:] if at else None,
+                                             "racing_op": info["kind"], "scenario": info, "history": l,
+                                             "readable": describe(l.replace("L %d " % k, ""))})
+                if found >= 3:
+                    break
+        corr.distribution["oracle(C03): line-level schedules replayed on the real objects (one op before every line event of a tick)"] = len(llines)
     corr.distribution["oracle(C03): race scenarios"] = len(scen)
     corr.distribution["oracle(C03): schedules replayed on the real objects (one op x one tick, every boundary)"] = len(lines)
     kinds = {}
